@@ -12,6 +12,10 @@
   * `slider_rt_exact`: in a state with empty `curve_points` (every reachable state) and with an expected length that is
     its own `max(·, 0)` and at least `f64::EPSILON`, the fields come back exactly.
   * `node_samples_rt`: names and banks of a node sample list in the decoder's own shape come back.
+  Findings named by the hypotheses: **F17** (a typed point — the first one included — whose position is repeated at a
+  segment start: excluded by `RepPath` through `ChainOK`, with `example`s in Lemmas/SliderEx.lean that those shapes are
+  outside the class), **F18** (a node's custom sample file name is never written), **F20** (`RepSlider.distRep`: the written
+  length must be within ±131072; a computed curve length above that is written and rejected on re-read).
   Law-dependent: `CodecLaws` for both float types plus `SliderRt.CoordLaws` (an `f32` coordinate printed with `Display`
   and read with `f64`'s `FromStr` truncates to the same integer and does not start with a letter); satisfiable
   (`slider_laws_satisfiable`), with worked instances in Lemmas/SliderEx.lean.
